@@ -79,6 +79,11 @@ func (vc VisitorContext) Visit(node jet.Node) {
 		vc.visitIndexExprNode(node)
 	case *jet.SliceExprNode:
 		vc.visitSliceExprNode(node)
+	case *jet.TryNode:
+		vc.visitTryNode(node)
+	case *jet.ReturnNode:
+		vc.visitReturnNode(node)
+	case *jet.UnderscoreNode:
 	case *jet.TextNode:
 	case *jet.IdentifierNode:
 	case *jet.StringNode:
@@ -93,7 +98,26 @@ func (vc VisitorContext) Visit(node jet.Node) {
 }
 
 func (vc VisitorContext) visitIncludeNode(includeNode *jet.IncludeNode) {
-	vc.visitNode(includeNode)
+	vc.visitNode(includeNode.Name)
+	if includeNode.Context != nil {
+		vc.visitNode(includeNode.Context)
+	}
+}
+
+func (vc VisitorContext) visitTryNode(tryNode *jet.TryNode) {
+	vc.visitNode(tryNode.List)
+	if tryNode.Catch != nil {
+		if tryNode.Catch.Err != nil {
+			vc.visitNode(tryNode.Catch.Err)
+		}
+		if tryNode.Catch.List != nil {
+			vc.visitNode(tryNode.Catch.List)
+		}
+	}
+}
+
+func (vc VisitorContext) visitReturnNode(returnNode *jet.ReturnNode) {
+	vc.visitNode(returnNode.Value)
 }
 
 func (vc VisitorContext) visitBlockNode(blockNode *jet.BlockNode) {
@@ -108,7 +132,7 @@ func (vc VisitorContext) visitBlockNode(blockNode *jet.BlockNode) {
 		vc.visitNode(blockNode.Expression)
 	}
 
-	vc.visitListNode(blockNode.List)
+	vc.visitNode(blockNode.List)
 
 	if blockNode.Content != nil {
 		vc.visitNode(blockNode.Content)
@@ -144,9 +168,11 @@ func (vc VisitorContext) visitBranchNode(branchNode *jet.BranchNode) {
 }
 
 func (vc VisitorContext) visitYieldNode(yieldNode *jet.YieldNode) {
-	for _, node := range yieldNode.Parameters.List {
-		if node.Expression != nil {
-			vc.visitNode(node.Expression)
+	if yieldNode.Parameters != nil { // nil for {{yield content}}
+		for _, node := range yieldNode.Parameters.List {
+			if node.Expression != nil {
+				vc.visitNode(node.Expression)
+			}
 		}
 	}
 	if yieldNode.Expression != nil {
@@ -167,7 +193,9 @@ func (vc VisitorContext) visitSetNode(setNode *jet.SetNode) {
 }
 
 func (vc VisitorContext) visitAdditiveExprNode(additiveExprNode *jet.AdditiveExprNode) {
-	vc.visitNode(additiveExprNode.Left)
+	if additiveExprNode.Left != nil { // nil for unary + and -
+		vc.visitNode(additiveExprNode.Left)
+	}
 	vc.visitNode(additiveExprNode.Right)
 }
 
@@ -215,8 +243,12 @@ func (vc VisitorContext) visitIndexExprNode(indexNode *jet.IndexExprNode) {
 
 func (vc VisitorContext) visitSliceExprNode(sliceExprNode *jet.SliceExprNode) {
 	vc.visitNode(sliceExprNode.Base)
-	vc.visitNode(sliceExprNode.Index)
-	vc.visitNode(sliceExprNode.EndIndex)
+	if sliceExprNode.Index != nil {
+		vc.visitNode(sliceExprNode.Index)
+	}
+	if sliceExprNode.EndIndex != nil {
+		vc.visitNode(sliceExprNode.EndIndex)
+	}
 }
 
 func (vc VisitorContext) visitCommandNode(commandNode *jet.CommandNode) {
